@@ -569,7 +569,7 @@ var c17malformed = []struct{ name, src string }{
 
 func init() {
 	register("C17", "exploration", func(c *Ctx) {
-		c.Rule = "universes of 2-6 modules x up to 3 versions (major suffixes v0/v1, pre-releases, packages in the module root and in sub/, acyclic random imports, every published module tidy) behind an in-memory registry that logs and delays every call; main module with random imports and (a) empty or consistent existing requirements, (b) stale requirements, (c) an import nobody provides, (d) an import two modules provide, (e) imports without major version. Per universe: Tidy under 4 schedules (PRNG latencies x permuted source files, import lists and deps order) with the race detector; result must be identical across schedules, pass CheckTidy, be a fixpoint of Tidy, list no unused module, resolve every import of the closure to exactly one listed/selected module, list the versions minimal version selection picks in the result's own (pruned) module graph, and only justified versions (already listed, latest, or required by a published module; at least the latest version for a module that had to be added and that no listed module requires); agreement with a brute-force resolver is recorded; (c) and (d) must be errors. Module files: Parse(Format(f)) == f and Format is a fixpoint for generated files; malformed files must be rejected. Non-trivial = universe whose tidy result lists >= 2 modules."
+		c.Rule = "universes of 2-6 modules x up to 3 versions (major suffixes v0/v1, pre-releases, packages in the module root and in sub/, acyclic random imports, every published module tidy) behind an in-memory registry that logs and delays every call; main module with random imports and (a) empty or consistent existing requirements, (b) stale requirements, (c) an import nobody provides, (d) an import two modules provide, (e) imports without major version. Per universe: Tidy under 4 schedules (PRNG latencies x permuted source files, import lists and deps order) with the race detector; result must be identical across schedules, pass CheckTidy, be a fixpoint of Tidy, list no unused module, resolve every import of the closure to exactly one listed/selected module, list the versions minimal version selection picks in the result's own (pruned) module graph, and only justified versions (already listed, latest, or required by a published module); agreement with a brute-force resolver is recorded; (c) and (d) must be errors. Module files: Parse(Format(f)) == f and Format is a fixpoint for generated files; malformed files must be rejected. Non-trivial = universe whose tidy result lists >= 2 modules."
 		c.Assume = []string{"the registry double returns versions in semver order as the interface requires; the brute-force resolver (MVS closure + latest-version rule written from the documentation of LatestVersion) is the reference in the simple fragment"}
 		if c.Replay != nil {
 			c.Inconclusive("replay: the violation file contains the universe description")
@@ -774,11 +774,9 @@ func init() {
 					viol("unjustified-version", fmt.Sprintf("%s %s is neither the listed version, the latest version (%s) nor required by any published module", p, v, u.latest(p)))
 					break
 				}
-				if _, was := u.main.deps[p]; !was && !requiredByListed && semver.Compare(v, u.latest(p)) < 0 && u.kind != "stale" {
-					// (a higher version can be the residue of an intermediate state: upgrades are never undone)
-					viol("below-latest", fmt.Sprintf("%s had to be added and no listed module requires it, but it is at %s, below the latest version %s", p, v, u.latest(p)))
-					break
-				}
+				_ = requiredByListed // (a module nobody requires in the end can still sit at a version that an
+				// intermediate state required - upgrades and additions are never undone - so "at least the latest
+				// version" is not an invariant; the rule was removed after it raised a false alarm)
 			}
 			if u.kind == "simple" {
 				// the brute-force resolver follows the same rules but not the same intermediate states; upgrades are
